@@ -435,6 +435,7 @@ structure World (pkg : String) (defs : Defs) (S : Schemas) : Prop where
     ∃ js, lookupDef defs n = some js ∧ Builds pkg defs js o.ty
   closed : ∀ n o, Schemas.locateObject S pkg n = some o →
     ∀ r ∈ Ty.refs o.ty, r.1 = pkg ∧ (Schemas.locateObject S pkg r.2).isSome = true
+  self : ∀ n o, Schemas.locateObject S pkg n = some o → o.name = n ∧ o.selfPkg = pkg ∧ o.selfName = n
 
 /-- the result of the front-end on a root that is a reference to definition `root` -/
 theorem frontEnd_spec (pkg : String) (defs : Defs) (fuel : Nat) (root : String) (S : Schemas)
@@ -465,7 +466,7 @@ theorem frontEnd_spec (pkg : String) (defs : Defs) (fuel : Nat) (root : String) 
       intro n
       subst h4
       simp [Schemas.locateObject, Schemas.locate, Schema.locateObject, sortObjects_rget _ sa.good.nodup]
-    refine ⟨⟨fun n => ⟨sch, rfl, by subst h4; rfl, ?_⟩, ?_, ?_⟩, ?_⟩
+    refine ⟨⟨fun n => ⟨sch, rfl, by subst h4; rfl, ?_⟩, ?_, ?_, ?_⟩, ?_⟩
     · subst h4
       simp [Schemas.locateObject, Schemas.locate, Schema.locateObject]
     · intro n o ho
@@ -475,6 +476,10 @@ theorem frontEnd_spec (pkg : String) (defs : Defs) (fuel : Nat) (root : String) 
       rw [hloc] at ho
       obtain ⟨e1, e2⟩ := (sa.good.obj_ok n o ho).2.2.2.2 r hr
       exact ⟨e1, by rw [hloc]; exact allDeclared _ e2⟩
+    · intro n o ho
+      rw [hloc] at ho
+      obtain ⟨a, b, c, _, _⟩ := sa.good.obj_ok n o ho
+      exact ⟨a, b, c⟩
     · rw [hloc]
       exact allDeclared root ((ra (pkg, root) (by simp [Ty.refs])).2)
 
